@@ -184,6 +184,46 @@ def classify(enabled):
     return cl
 
 
+def conf_model(repo):
+    """Independent reading of lib/hashes.conf: method names and, per lower-cased flag, its members.
+    STRONG is a selectable group, DEFAULT is not (configure's documentation of --enable-hashes)."""
+    names, groups = [], {}
+    for ln in open(os.path.join(repo, 'lib', 'hashes.conf')).read().splitlines():
+        if not ln.strip() or ln.startswith('#'):
+            continue
+        parts = ln.split()
+        if len(parts) < 4:
+            continue
+        names.append(parts[0])
+        if parts[3] != ':':
+            for f in parts[3].split(','):
+                if f != 'DEFAULT':
+                    groups.setdefault(f.lower(), []).append(parts[0])
+    return names, groups
+
+
+def expand_selection(repo, selection):
+    r = subprocess.run(['perl', os.path.join(repo, 'build-aux', 'scripts', 'expand-selected-hashes'),
+                        os.path.join(repo, 'lib', 'hashes.conf'), selection], stdout=subprocess.PIPE, stderr=subprocess.PIPE)
+    if r.returncode != 0:
+        return None
+    return sorted(x for x in r.stdout.decode().strip().strip(',').split(',') if x)
+
+
+def check_selection(repo, tokens, names, groups):
+    """A selection is a comma list of method and group names in any order: it enables the union."""
+    want = set()
+    for t in tokens:
+        want.update(groups[t] if t in groups else [t])
+    got = expand_selection(repo, ','.join(tokens))
+    if got is None:
+        return 'C19 --enable-hashes=%s is refused although every word is a method or group name' % ','.join(tokens)
+    if set(got) != want:
+        return 'C19 --enable-hashes=%s enables {%s} but the words name {%s} (missing: %s; extra: %s)' % (
+            ','.join(tokens), ','.join(got), ','.join(sorted(want)), ','.join(sorted(want - set(got))) or '-', ','.join(sorted(set(got) - want)) or '-')
+    return ''
+
+
 def main(tier, replay=None):
     import hypothesis
     from hypothesis import given, settings, seed as hseed, strategies as st, HealthCheck
@@ -199,6 +239,11 @@ def main(tier, replay=None):
         return 2
     if replay:
         kv = dict(l.strip().split('=', 1) for l in open(replay) if '=' in l and not l.startswith('#'))
+        if 'selection' in kv:
+            names, groups = conf_model(repo)
+            msg = check_selection(repo, bytes.fromhex(kv['selection']).decode().split(','), names, groups)
+            print(('REPLAY-FAIL ' + msg) if msg else 'REPLAY-PASS')
+            return 1 if msg else 0
         en = bytes.fromhex(kv['enabled']).decode().split(',')
         msg = sanity_full(full) if sorted(en) == sorted(ALL) else check_config(en, full, order, corpus)
         print(('REPLAY-FAIL ' + msg) if msg else 'REPLAY-PASS')
@@ -281,10 +326,46 @@ def main(tier, replay=None):
         en, m = failure[0]
         record(en, m)
     classes['random-examples'] = nrand
+    # selections as configure receives them: words (method and group names) in any order and multiplicity
+    names, groups = conf_model(repo)
+    words = names + sorted(groups)
+    nsel = 300 if tier == 'quick' else 3000
+    sel_failure = []
+    sel_seen = set()
+
+    @hseed(vseed + 1)
+    @settings(max_examples=nsel, database=None, deadline=None, report_multiple_bugs=False, derandomize=False,
+              suppress_health_check=list(HealthCheck), phases=[hypothesis.Phase.generate, hypothesis.Phase.shrink])
+    @given(st.lists(st.sampled_from(words), min_size=1, max_size=5))
+    def prop_selection(tokens):
+        nonlocal evaluations
+        evaluations += 1
+        m = check_selection(repo, tokens, names, groups)
+        if any(t in groups for t in tokens) and len(tokens) >= 2:
+            sel_seen.add(','.join(tokens))
+        if m:
+            sel_failure[:] = [(list(tokens), m)]
+            raise AssertionError(m)
+
+    try:
+        prop_selection()
+    except AssertionError:
+        tokens, m = sel_failure[0]
+        rdir = os.path.join(runner.REPLAYS, prop)
+        os.makedirs(rdir, exist_ok=True)
+        rp = os.path.join(rdir, hashlib.sha256(('sel:' + ','.join(tokens)).encode()).hexdigest()[:12] + '.case')
+        open(rp, 'w').write('# %s\nselection=%s\n' % (m.splitlines()[0], ','.join(tokens).encode().hex()))
+        if all(check_selection(repo, tokens, names, groups) for _ in range(3)):
+            violations.append((rp, m))
+    classes['selection-strings-mixing-groups-and-names'] = len(sel_seen)
+    if len(samples) < 16:
+        samples.extend('--enable-hashes=' + x for x in sorted(sel_seen)[:3])
     wall = time.time() - t0
     cov = dict(evaluations=evaluations, distinct_nontrivial=len(seen),
                rule="a case is a non-empty subset of the 16 methods: all singletons, all leave-one-out sets, every named group of hashes.conf (expanded by the tree's expand-selected-hashes), "
-                    "every (a enabled, b disabled) split inside the code-sharing families, and Hypothesis-drawn random subsets; each is built with the tree's generator scripts and a probe transcript "
+                    "every (a enabled, b disabled) split inside the code-sharing families, and Hypothesis-drawn random subsets; in addition Hypothesis draws selection strings as configure receives them "
+                    "(1-5 method and group names in any order) and the set the tree's expand-selected-hashes enables must be the union of the names and of the groups' members as an independent reading of "
+                    "hashes.conf gives them; each subset is built with the tree's generator scripts and a probe transcript "
                     "(45 hashes, gensalt/checksalt per tag, NULL prefix, preferred method, crypt.h macros) is compared with the model; non-trivial = configuration other than 'all'; distinct = distinct subsets",
                samples=samples or ['(none)'], classes=dict(sorted(classes.items())), probe_lines=len(order),
                tree_fingerprint=vbuild.tree_fingerprint(repo)[:16])
